@@ -225,6 +225,8 @@ def run(tier, seed, model):
         polling(camp, rng, tmp, 80 if tier == "quick" else 2000)
         if not camp.oracle_failures:
             non_rgb_references(camp, rng, tmp, 60 if tier == "quick" else 1500)
+        if not camp.oracle_failures:
+            two_connections(camp, rng, tmp, 20 if tier == "quick" else 500)
         finding_empty_update(camp, tmp)
     finally:
         shutil.rmtree(tmp, ignore_errors=True)
@@ -235,6 +237,62 @@ def run(tier, seed, model):
                  "compared with the PrimFloat model evaluated by vm_compute; polling histories of 0..12 updates with the first match "
                  "at every position; non-trivial = (case, tolerance)")
     return camp
+
+
+def two_connections(camp, rng, tmp, n):
+    """two clients in one process: A waits for an image while B's server sends updates of its own, the segments of the two
+    connections interleaved (A's update split after the rectangle header): every completed update of A that does not match
+    costs A exactly one request, and the matching one completes A's wait"""
+    import struct
+    hs = b"RFB 003.008\n\x01\x01\0\0\0\0" + struct.pack("!HH16sI", 4, 3, bytes([32, 24, 0, 1, 0, 255, 0, 255, 0, 255, 0, 8, 16, 0, 0, 0]), 0)
+    for i in range(n):
+        clients = []
+        for _ in range(2):
+            c = vclient.VNCDoToolClient()
+            c.factory = vclient.VNCDoToolFactory()
+            c.factory.nocursor = True
+            c.makeConnection(StringTransport())
+            c.dataReceived(hs)
+            clients.append(c)
+        a, b = clients
+        target = [[(rng.randrange(256), rng.randrange(256), rng.randrange(256)) for _ in range(4)] for _ in range(3)]
+        png = os.path.join(tmp, "two.png")
+        img_from_rows(target).save(png)
+        a.transport.clear()
+        d = a.expectScreen(png, 0)
+        done = []
+        d.addCallback(lambda r: done.append(1))
+        first = clientops.parse_c2s(a.transport.value())
+        camp.evaluations += 1
+        camp.count("two-connections")
+        camp.nontrivial.add(("two", i))
+        why = None
+        if first != [("FbUpdateRequest", 0, 0, 0, 4, 3)]:
+            why = f"arming the wait wrote {first}"
+        nupd = rng.randrange(1, 5)
+        for k in range(nupd):
+            if why:
+                break
+            match = k == nupd - 1
+            rows = target if match else [[(rng.randrange(256), 1, 2) for _ in range(4)] for _ in range(3)]
+            msg = fbu_raw(0, 0, rows)
+            cut = rng.choice([4, 16, 16 + rng.randrange(1, 40)])
+            other = fbu_raw(0, 0, [[(rng.randrange(256), 9, 9) for _ in range(4)] for _ in range(3)])
+            ocut = rng.choice([4, 16, len(other)])
+            a.transport.clear()
+            a.dataReceived(msg[:cut])
+            b.dataReceived(other[:ocut])           # the other connection's update begins while A's is half way
+            a.dataReceived(msg[cut:])
+            b.dataReceived(other[ocut:])
+            reqs = clientops.parse_c2s(a.transport.value())
+            if match and (not done or reqs):
+                why = f"update #{k} shows the awaited image: completed={bool(done)}, requests {reqs}"
+            elif not match and (done or reqs != [("FbUpdateRequest", 1, 0, 0, 4, 3)]):
+                why = f"update #{k} does not match: completed={bool(done)}, requests {reqs}; exactly one incremental request expected"
+        if why:
+            camp.oracle_failures.append({"kind": "oracle", "property": "C07", "case": {"two_connections": i},
+                                         "what": f"two connections in one process, segments interleaved: connection A: {why}"})
+            return
 
 
 def non_rgb_references(camp, rng, tmp, n):
@@ -434,7 +492,7 @@ def finding_empty_update(camp, tmp):
 
 def replay(payload):
     case = payload["case"]
-    if "screen" not in case or "non_rgb" in case:
+    if "screen" not in case or "non_rgb" in case or "two_connections" in case:
         return True, "replay: polling / no-screen / non-RGB reference case; re-run ./check C07"
     tmp = tempfile.mkdtemp(prefix="c07-")
     try:
